@@ -268,7 +268,9 @@ contract(FB, "RuleDBBase.pruned_dict", props=["C05"],
          params={"self": Obj("RuleDBBase")}, returns=RulesDict, requires=["wf(self.equivdb)"],
          ensures=["wf(self.equivdb)", "not is_none(self._pruned_dict) and same(result, val(self._pruned_dict))",
                   # a cached dictionary is served as is
-                  "implies(not old(is_none(self._pruned_dict)), same(result, old(val(self._pruned_dict))))"],
+                  "implies(not old(is_none(self._pruned_dict)), same(result, old(val(self._pruned_dict))))",
+                  # ... and without touching the equivalences (so the representative of the start label stays what it was)
+                  "implies(not old(is_none(self._pruned_dict)), forall(lambda y: self.equivdb.rep[y] == old(self.equivdb.rep[y])))"],
          call_requires={
              # iterative packs: recursion is allowed to the start class's own equivalence class, i.e. the root handed to
              # the pruning is the representative found for root_label AFTER equivalences were brought up to date
@@ -300,13 +302,28 @@ contract(FB, "RuleDBBase.has_specification", props=["C05"],
 FTS = "comb_spec_searcher/tree_searcher.py"
 _Node = Obj("Node")      # class declared in contracts/bijection.py (tree_searcher.Node)
 Float_ = Opaque("Float")
-for _fn, _extra in (("iterative_proof_tree_finder", {}), ("smallish_random_proof_tree", {"minimization_time_limit": Float_})):
-    contract(FTS, _fn, props=["C05"], verify=False,
-             trusted_reason="tree search in the pruned dictionary (bounded stand-in c05: exhaustive small dictionaries)",
-             params=dict({"rules_dict": RulesDict, "root": Int}, **_extra), returns=_Node, modifies=[])
+# Ghost functions for the 'smallest' option: tsize(node) = number of nodes of a proof tree (what Node.__len__ computes);
+# min_tsize(d, root) = the least size of a proof tree for `root` in the dictionary object d.  min_tsize is keyed by the
+# dictionary OBJECT: it is only used between two readings of the cached pruned dictionary, which pruned_dict (verified)
+# serves unchanged -- see the notes of RuleDBBase._get_smallest_node.
+spec_fn("tsize", _ufn("tsize", Int))
+spec_fn("min_tsize", _ufn("min_tsize", Int))
+_MIN = "min_tsize(rules_dict, root)"
+contract(FTS, "iterative_proof_tree_finder", props=["C05"], verify=False,
+         trusted_reason="tree search in the pruned dictionary (bounded stand-in c05: exhaustive small dictionaries)",
+         params={"rules_dict": RulesDict, "root": Int}, returns=_Node, modifies=[])
+contract(FTS, "smallish_random_proof_tree", props=["C05"], verify=False,
+         trusted_reason="tree search in the pruned dictionary (bounded stand-in c05: exhaustive small dictionaries); assumed here: "
+                        "it returns a proof tree for the root, hence one that is not smaller than the smallest",
+         params={"rules_dict": RulesDict, "root": Int, "minimization_time_limit": Float_}, returns=_Node,
+         ensures=["tsize(result) >= " + _MIN, _MIN + " >= 1"], modifies=[])
 contract(FTS, "proof_tree_generator_dfs", props=["C05"], verify=False,
-         trusted_reason="depth-first generator of proof trees (bounded stand-in c05)",
-         params={"rules_dict": RulesDict, "root": Int, "maximum": Opt(Int)}, returns=Seq(_Node), yields=["True"], modifies=[])
+         trusted_reason="depth-first generator of proof trees (bounded stand-in c05); assumed here: with a bound it yields "
+                        "exactly the proof trees of at most `maximum` nodes (none iff the smallest tree is larger)",
+         params={"rules_dict": RulesDict, "root": Int, "maximum": Opt(Int)}, returns=Seq(_Node),
+         yields=["tsize(it) >= " + _MIN, "is_none(maximum) or tsize(it) <= val(maximum)"],
+         yields_count=["(count > 0) == (is_none(maximum) or val(maximum) >= " + _MIN + ")"],
+         modifies=[])
 _ROOT_OK = ["same(rules_dict, val(self._pruned_dict))", "root == self.equivdb.rep[root_label_of(self)]",
             'called_after("EquivalenceDB.__getitem__", "RuleDBBase.pruned_dict")']
 _NODE_MODS = ["self._pruned_dict", "all:Obj('EquivalenceDB')", "all:Dict(Int, Int)", "all:Set(Int)",
@@ -315,16 +332,29 @@ contract(FB, "RuleDBBase._get_iterative_node", props=["C05"], aliases=AL,
          params={"self": Obj("RuleDBBase")}, returns=_Node, requires=["wf(self.equivdb)"],
          raises=[("InvalidOperationError", "not iterative_of(self)")],
          call_requires={"iterative_proof_tree_finder": _ROOT_OK}, ensures=["wf(self.equivdb)"], modifies=_NODE_MODS)
+_MINSELF = "min_tsize(val(self._pruned_dict), self.equivdb.rep[root_label_of(self)])"
 contract(FB, "RuleDBBase._get_smallish_node", props=["C05"], aliases=AL, lenient=True,
          params={"self": Obj("RuleDBBase"), "minimization_time_limit": Float_}, returns=_Node, requires=["wf(self.equivdb)"],
          raises=[("InvalidOperationError", "iterative_of(self)")],
-         call_requires={"smallish_random_proof_tree": _ROOT_OK}, ensures=["wf(self.equivdb)"], modifies=_NODE_MODS)
+         call_requires={"smallish_random_proof_tree": _ROOT_OK}, ensures=["wf(self.equivdb)", "not is_none(self._pruned_dict)", "tsize(result) >= " + _MINSELF, _MINSELF + " >= 1"],
+         modifies=_NODE_MODS)
+_BS_INV = ["wf(self.equivdb)", "not is_none(self._pruned_dict)", "same(val(self._pruned_dict), at('loop0', val(self._pruned_dict)))",
+           "self.equivdb.rep[root_label_of(self)] == at('loop0', self.equivdb.rep[root_label_of(self)])",
+           "1 <= minimum", "minimum <= " + _MINSELF, _MINSELF + " <= maximum", "tsize(node) == maximum"]
 contract(FB, "RuleDBBase._get_smallest_node", props=["C05"], aliases=AL, lenient=True,
          params={"self": Obj("RuleDBBase"), "minimization_time_limit": Float_}, returns=_Node, requires=["wf(self.equivdb)"],
+         locals={"node": _Node, "minimum": Int, "maximum": Int, "middle": Int},
          raises=[("InvalidOperationError", "iterative_of(self)")],
          call_requires={"proof_tree_generator_dfs": _ROOT_OK},
-         loops={0: dict(invariant=["wf(self.equivdb)"], modifies=_NODE_MODS)},
-         ensures=["wf(self.equivdb)"], modifies=_NODE_MODS)
+         loops={0: dict(invariant=_BS_INV, modifies=_NODE_MODS)},
+         ensures=["wf(self.equivdb)", "not is_none(self._pruned_dict)",
+                  # the binary search ends on a tree of the least size
+                  "tsize(result) == " + _MINSELF],
+         modifies=_NODE_MODS,
+         notes="binary search over the bounded depth-first generator: the returned tree has the least size among the proof "
+               "trees of the cached pruned dictionary for the representative of the start label (relative to the assumed "
+               "contracts of the two finders; min_tsize is keyed by the dictionary object, which pruned_dict serves "
+               "unchanged, with the equivalences untouched, once it is cached -- both proved)")
 contract(FB, "RuleDBBase._get_specification_node", props=["C05"], aliases=AL, lenient=True,
          params={"self": Obj("RuleDBBase"), "minimization_time_limit": Float_, "smallest": Bool}, returns=_Node,
          requires=["wf(self.equivdb)"],
@@ -342,7 +372,7 @@ contract(FB, "RuleDBBase.get_specification_rules", props=["C05", "C02"], aliases
              'same(root_node, last_result("RuleDBBase._get_specification_node"))']},
          modifies=_NODE_MODS + ["all:Obj('SpecificationRuleExtractor')"])
 contract(FTS, "Node.__len__", props=["C05"], verify=False, trusted_reason="number of nodes of a proof tree (recursive structure)",
-         params={"self": _Node}, returns=Int, ensures=["result >= 1"], modifies=[])
+         params={"self": _Node}, returns=Int, ensures=["result >= 1", "result == tsize(self)"], modifies=[])
 
 # ------------------------------------------------------------------ C05: prune -- what holds when it returns
 # (soundness of the pruning: the result is closed, a sub-dictionary of the input; that it is the GREATEST such
